@@ -66,6 +66,51 @@ deriving DecidableEq, Repr
 
 def CopyFact.site (f : CopyFact) : String := "copyshare:" ++ f.file ++ ":" ++ f.fn ++ ":" ++ f.field
 
+/-- an object that is given back to a `sync.Pool` (node scope, block scope, merged record, key buffer): per function
+    and released object the number of release sites, how many of them are deferred, and the fewest / most releases
+    on any path through the function (deferred calls included; capped at 3) -/
+structure ReleaseFact where
+  file   : String
+  line   : Nat
+  fn     : String     -- function (`Recv.Name`; `….funcN` for the N-th function literal inside it)
+  key    : String     -- the released expression
+  via    : String     -- the releaser called (`sync.Pool.Put`, or a function that hands its argument on to one)
+  sites  : Nat
+  defers : Nat
+  minRel : Nat
+  maxRel : Nat
+deriving DecidableEq, Repr
+
+def ReleaseFact.site (f : ReleaseFact) : String := "doublerelease:" ++ f.file ++ ":" ++ f.fn ++ ":" ++ f.key
+def ReleaseFact.leakSite (f : ReleaseFact) : String := "releaseleak:" ++ f.file ++ ":" ++ f.fn ++ ":" ++ f.key
+
+/-- a place where a `View` gets its `Header`: made anew (`fresh`), or another view's header; for the latter whether
+    the function then calls something on the new view that writes header fields -/
+structure HeaderShareFact where
+  file         : String
+  line         : Nat
+  fn           : String
+  target       : String
+  source       : String
+  fresh        : Bool
+  writtenAfter : Bool
+  via          : String
+deriving DecidableEq, Repr
+
+def HeaderShareFact.site (f : HeaderShareFact) : String := "headershare:" ++ f.file ++ ":" ++ f.fn ++ ":" ++ f.target
+
+/-- a statement that writes a field of a header element; `localHeader`: the header is made in the same function -/
+structure HeaderWriteFact where
+  file        : String
+  line        : Nat
+  fn          : String
+  header      : String
+  field       : String
+  localHeader : Bool
+deriving DecidableEq, Repr
+
+def HeaderWriteFact.site (f : HeaderWriteFact) : String := "headerwrite:" ++ f.fn ++ ":" ++ f.header ++ ":" ++ f.field
+
 /-! ## Executions -/
 
 abbrev LockId := Nat
